@@ -1,1 +1,19 @@
-fn main() {}
+mod c08;
+mod corpus;
+mod meter;
+mod mutate;
+mod readers;
+
+#[global_allocator]
+static GLOBAL: meter::Meter = meter::Meter;
+
+fn main() {
+    let ctx = vcore::Ctx::from_args();
+    match ctx.prop.as_str() {
+        "C08" => c08::run(&ctx),
+        other => {
+            eprintln!("MACHINERY: vk-untrusted does not serve property {other:?}");
+            std::process::exit(2)
+        }
+    }
+}
